@@ -77,6 +77,9 @@ func runC05(p *Prog, r *Report) {
 	if want("C05.8") {
 		ruleAtomicAlignment(p, r, "C05.8")
 	}
+	if want("C05.12") {
+		ruleMemInsertSeq(p, r, "C05.12")
+	}
 	if want("C05.11") {
 		// a reader's cut is its sequence number: entries above it are invisible in both directions
 		ruleDbIterGuards(p, r, "C05.11")
